@@ -622,7 +622,12 @@ func c07R6(p *core.Program, r *core.Report, pl *pipeline) {
 	pth := core.PathTo(e.Body, call)
 	for k := len(pth) - 1; k >= 0; k-- {
 		if rs, ok := pth[k].(*ast.RangeStmt); ok {
-			if strings.HasSuffix(canonBase(p, e, rs.X, 0), ".LocalPkgPaths()") {
+			seqX, _ := core.Resolve(info, e.Body, rs.X)
+			isLocalPkgs := false
+			if sc, isCall := ast.Unparen(seqX).(*ast.CallExpr); isCall && strings.HasSuffix(core.CalleeName(info, sc), core.G("pkg/types.Universe")+").LocalPkgPaths") {
+				isLocalPkgs = true // by callee: whatever the iterator's body is made of
+			}
+			if isLocalPkgs || strings.HasSuffix(canonBase(p, e, rs.X, 0), ".LocalPkgPaths()") {
 				loop = rs
 				direct = core.VarOf(info, rs.Value)
 			}
